@@ -1109,7 +1109,7 @@ func (k *c18Case) scenarioOwnership(base *stor.Stor, m kvmap) {
 // ---- driver -----------------------------------------------------------------------------------------
 
 func runC18(c *Ctx) {
-	c.Res.Rule = "each case: a random DB program (puts/deletes/batches/large batches/compactions/reopen/transactions, tiny buffers, mostly bytewise comparer) builds a storage; clones of it are driven into the states closed (tail only in the journal, live/released snapshots and iterators, committed/discarded/open transaction, in a third of the cases a frozen buffer still unflushed at Close), openRO (the storage exactly as Close left it, opened with ReadOnly) and switchedRO (SetReadOnly, drain of the background work), plus openRW, and switchedRO entered while a compaction is retrying after failing table creations (every write-side call must then return the read-only error, Close must return); in each state EVERY public method of DB, Snapshot, Transaction and the DB iterator is called under a 10 s watchdog on the recording storage. One evaluation = one call (state × receiver × method) or one direct check (second Open refused, reopen after Close serves the plain map, read-only session leaves the files bit-identical, nothing mutated after SetReadOnly+drain, NewIterator/Get overlapping Close, ownership traces, a real file storage); it is checked against the property's demand for that state and against the Lean table (`life` lines). Non-trivial = the case's DB holds ≥ 3 keys and ≥ 1 table; distinct by (case, scenario, state, receiver, method)."
+	c.Res.Rule = "each case: a random DB program (puts/deletes/batches/large batches/compactions/reopen/transactions, tiny buffers, mostly bytewise comparer) builds a storage; clones of it are driven into the states closed (tail only in the journal, live/released snapshots and iterators, committed/discarded/open transaction, in a third of the cases a frozen buffer still unflushed at Close), openRO (the storage exactly as Close left it, opened with ReadOnly) and switchedRO (SetReadOnly, drain of the background work), plus openRW, and switchedRO entered while a compaction is retrying after failing table creations (every write-side call must then return the read-only error, Close must return); in each state EVERY public method of DB, Snapshot, Transaction and the DB iterator is called under a 10 s watchdog on the recording storage. One evaluation = one call (state × receiver × method) or one direct check (second Open refused, reopen after Close serves the plain map, read-only session leaves the files bit-identical, nothing mutated after SetReadOnly+drain, NewIterator/Get overlapping Close, ownership traces, a real file storage, and the close-race campaign: one kind of call × plain / SetReadOnly / Options.ReadOnly racing Close at a random moment with yield points widening the narrow windows, each result normal-and-correct or a closed-class error, never a panic, hang, internal error or made-up answer, nothing touches the storage after Close returned, a reopen shows the preloaded data); it is checked against the property's demand for that state and against the Lean table (`life` lines). Non-trivial = the case's DB holds ≥ 3 keys and ≥ 1 table; distinct by (case, scenario, state, receiver, method)."
 	defer UninstallSink()
 	ncases := c.Scale(120, 1500)
 	for i := 0; i < ncases && c.TimeLeft() && !c.Hung; i++ {
@@ -1186,6 +1186,8 @@ func runC18(c *Ctx) {
 	if !c.Hung {
 		c18BruteRace(c, time.Duration(c.Scale(3, 20))*time.Second)
 	}
+	// calls racing Close, one kind of call at a time, yield points widening the narrow windows (c18race.go)
+	runCloseRaces(c, time.Duration(c.Scale(14, 240))*time.Second, false)
 }
 
 // c18CallLong is c18Call with another time limit.
